@@ -347,6 +347,33 @@ pub fn probe(hist: &[Op], term: Term) -> Result<(), String> {
     }
 }
 
+/// The same probe (replay + terminal operation), executed from a destructor while the thread is
+/// unwinding from an unrelated panic: finishing must report what was recorded there too.
+pub fn probe_unwinding(hist: &[Op], term: Term) -> Result<(), String> {
+    struct Guard<'a>(&'a [Op], Term, &'a std::cell::RefCell<Option<(bool, Result<(), String>)>>);
+    impl Drop for Guard<'_> {
+        fn drop(&mut self) {
+            let r = catch(std::panic::AssertUnwindSafe(|| probe(self.0, self.1))).unwrap_or_else(|p| Err(format!("panicked: {p}")));
+            *self.2.borrow_mut() = Some((std::thread::panicking(), r));
+        }
+    }
+    let slot = std::cell::RefCell::new(None);
+    let outcome = catch(std::panic::AssertUnwindSafe(|| {
+        let _g = Guard(hist, term, &slot);
+        std::panic::panic_any(String::from("ORIGINAL-PAYLOAD"));
+    }));
+    match outcome {
+        Err(msg) if msg == "ORIGINAL-PAYLOAD" => {}
+        Err(msg) => return Err(format!("payload replaced: {msg}")),
+        Ok(()) => return Err("panic was swallowed".into()),
+    }
+    match slot.into_inner() {
+        Some((true, r)) => r.map_err(|m| format!("while the thread is unwinding: {m}")),
+        Some((false, _)) => vrt::machinery("guard did not run during unwinding"),
+        None => vrt::machinery("guard did not run"),
+    }
+}
+
 fn violation(hist: &[Op], term: Option<Term>, msg: String) -> Violation {
     Violation {
         key: format!("C05 hist={hist:?} term={term:?} :: {msg}"),
@@ -449,7 +476,8 @@ pub fn main(args: &Args) {
         let terms: Vec<Term> = term.map(|t| vec![t]).unwrap_or_else(|| TERMS.to_vec());
         let mut bad = false;
         for t in terms {
-            match catch(std::panic::AssertUnwindSafe(|| probe(&hist, t))) {
+            let unwinding = case["unwinding"].as_bool().unwrap_or(false) && t != Term::DropUnwinding;
+            match catch(std::panic::AssertUnwindSafe(|| if unwinding { probe_unwinding(&hist, t) } else { probe(&hist, t) })) {
                 Ok(Ok(())) => println!("replay {hist:?} {t:?}: ok"),
                 Ok(Err(m)) => {
                     bad = true;
@@ -502,7 +530,7 @@ pub fn main(args: &Args) {
     unwind_sweep(&mut rep, child_depth);
 
     rep.rule = format!(
-        "every history over {} accumulator operations up to length {} (stateright BFS, one state per history), each followed by every terminal operation (finish, finish_with, into_inner, drop, inspect) on a fresh replay of the real Accumulator, compared with a Vec reference; drop-during-unwind for every history up to length {} in a child process; non-trivial = history that records at least one error",
+        "every history over {} accumulator operations up to length {} (stateright BFS, one state per history), each followed by every terminal operation (finish, finish_with, into_inner, drop, inspect) on a fresh replay of the real Accumulator, compared with a Vec reference; drop-during-unwind, and every finishing operation executed from a destructor during an unrelated unwind, for every history up to length {} in a child process; non-trivial = history that records at least one error",
         OPS.len(), depth.max(deep), child_depth
     );
     rep.assumptions = vec!["Error Display text distinguishes the recorded errors (ids are embedded in the messages)".into(), "panic=unwind build".into()];
@@ -570,16 +598,23 @@ pub fn child(args: &Args) {
     let f = std::fs::OpenOptions::new().write(true).create(true).truncate(true).open(&path).unwrap();
     let hs = all_histories(depth);
     let mut bad = vec![];
+    let mut probes = 0u64;
     for (i, h) in hs.iter().enumerate() {
         f.write_all_at(format!("{i:012}").as_bytes(), 0).unwrap();
         if let Err(m) = probe(h, Term::DropUnwinding) {
-            bad.push(json!({"hist": h, "message": m}));
-            if bad.len() > 20 {
-                break;
+            bad.push(json!({"hist": h, "term": Term::DropUnwinding, "message": m}));
+        }
+        for t in [Term::Finish, Term::FinishWith, Term::IntoInner, Term::FinishLen] {
+            probes += 1;
+            if let Err(m) = probe_unwinding(h, t) {
+                bad.push(json!({"hist": h, "term": t, "message": m}));
             }
         }
+        if bad.len() > 20 {
+            break;
+        }
     }
-    println!("{}", json!({"histories": hs.len(), "bad": bad}));
+    println!("{}", json!({"histories": hs.len(), "finishing_probes": probes, "bad": bad}));
 }
 
 fn unwind_sweep(rep: &mut Report, depth: usize) {
@@ -612,7 +647,14 @@ fn unwind_sweep(rep: &mut Report, depth: usize) {
     rep.set("unwind_histories_in_child", json!(n));
     for b in v["bad"].as_array().cloned().unwrap_or_default() {
         let h: Vec<Op> = serde_json::from_value(b["hist"].clone()).unwrap();
-        rep.tally.violate(violation(&h, Some(Term::DropUnwinding), b["message"].as_str().unwrap_or("").to_string()));
+        let term: Term = serde_json::from_value(b["term"].clone()).unwrap_or(Term::DropUnwinding);
+        let mut v = violation(&h, Some(term), b["message"].as_str().unwrap_or("").to_string());
+        v.case["unwinding"] = json!(true);
+        rep.tally.violate(v);
     }
+    let fp = v["finishing_probes"].as_u64().unwrap_or(0);
+    rep.tally.evaluations += fp;
+    rep.tally.traces += fp;
+    rep.set("finishing_probes_while_unwinding", json!(fp));
     let _ = Tier::Quick;
 }
